@@ -17,11 +17,11 @@ Definition parent_ok (d : defs) (l : list inst) (r : inst) : Prop :=
     /\ bind (pf_sig f) key [] = Some key
     /\ item_ctx d f (pbase ++ cp) outer key = Some (i_base r, i_args r, i_xrefs r).
 
-Definition inst_ok (d : defs) (l : list inst) (r : inst) : Prop :=
-  parent_ok d l r /\ subtree (i_base r) d = i_snap r /\ cache_ok (ectx_of r) (i_cache r).
+Definition inst_ok (g : list (string * Z)) (d : defs) (l : list inst) (r : inst) : Prop :=
+  parent_ok d l r /\ subtree (i_base r) d = i_snap r /\ cache_ok (ectx_of g r) (i_cache r).
 
-Definition live_ok (d : defs) (l : list inst) : Prop := forall r, In r l -> inst_ok d l r.
-Definition Inv (st : state) : Prop := live_ok (st_defs st) (st_live st).
+Definition live_ok (g : list (string * Z)) (d : defs) (l : list inst) : Prop := forall r, In r l -> inst_ok g d l r.
+Definition Inv (st : state) : Prop := live_ok (st_glob st) (st_defs st) (st_live st).
 
 (** ** item_ctx depends on the definitions only through the existence of the chosen base *)
 Lemma item_ctx_mem : forall d f db o k b a x, item_ctx d f db o k = Some (b, a, x) -> dmem b d = true.
@@ -37,9 +37,9 @@ Proof.
   destruct (run_pbody _ _) as [[ob xr]|]; [|discriminate].
   destruct (dmem _ d) eqn:E; [|discriminate]. inversion H; subst. now rewrite M.
 Qed.
-Lemma base_mem : forall d l r, inst_ok d l r -> dmem (i_base r) d = true.
+Lemma base_mem : forall gl d l r, inst_ok gl d l r -> dmem (i_base r) d = true.
 Proof.
-  intros d l r [(its & cp & key & pbase & outer & f & _ & _ & _ & _ & Hi) _]. eapply item_ctx_mem; eauto.
+  intros gl d l r [(its & cp & key & pbase & outer & f & _ & _ & _ & _ & Hi) _]. eapply item_ctx_mem; eauto.
 Qed.
 Lemma dmem_via_subtree : forall b d d', subtree b d' = subtree b d -> dmem b d = true -> dmem b d' = true.
 Proof.
@@ -76,16 +76,16 @@ Qed.
 
 (** ** the frame lemma: instances that survive an edit which leaves what they
     were built from untouched stay consistent *)
-Lemma frame : forall d d' l l',
-  live_ok d l ->
+Lemma frame : forall gl d d' l l',
+  live_ok gl d l ->
   (forall r, In r l' -> In r l) ->
   (forall r r0, In r l' -> In r0 l -> ikey_prefix (i_key r0) (i_key r) = true -> In r0 l') ->
   (forall r, In r l' -> subtree (i_base r) d' = subtree (i_base r) d) ->
   (forall r key f, In r l' -> snd (i_key r) = [([], key)] ->
      params_at d (fst (i_key r)) = Some f -> params_at d' (fst (i_key r)) = Some f) ->
-  live_ok d' l'.
+  live_ok gl d' l'.
 Proof.
-  intros d d' l l' Hok Hsub Hpar Hsnap Hpf r Hr.
+  intros gl d d' l l' Hok Hsub Hpar Hsnap Hpf r Hr.
   destruct (Hok r (Hsub r Hr)) as [(its & cp & key & pbase & outer & f & Hk & Hp & Hf & Hb & Hi) [Hs Hc]].
   split; [|split].
   - exists its, cp, key, pbase, outer, f. split; [exact Hk|]. split; [|split; [|split]].
@@ -108,18 +108,18 @@ Proof.
   - exact Hc.
 Qed.
 
-Lemma live_ok_del : forall d l f, live_ok d l -> live_ok d (del_where f l).
+Lemma live_ok_del : forall gl d l f, live_ok gl d l -> live_ok gl d (del_where f l).
 Proof.
-  intros d l f Hok. apply (frame d d l); auto.
+  intros gl d l f Hok. apply (frame gl d d l); auto.
   - intros r H. now apply in_del_where in H.
   - intros r r0 H H0 Hp. eapply del_where_parent; eauto.
 Qed.
 
 (** a survivor of an edit of node [p] was not built from [p] *)
-Lemma survivor_not_under : forall d l p r, inst_ok d l r -> dmem p d = true -> has_dynsub p r = false ->
+Lemma survivor_not_under : forall gl d l p r, inst_ok gl d l r -> dmem p d = true -> has_dynsub p r = false ->
   strip_prefix (i_base r) p = None.
 Proof.
-  intros d l p r [_ [Hs _]] Hm Hh. unfold has_dynsub in Hh.
+  intros gl d l p r [_ [Hs _]] Hm Hh. unfold has_dynsub in Hh.
   destruct (strip_prefix (i_base r) p) as [cp|] eqn:E; [|reflexivity].
   rewrite <- Hs in Hh. rewrite dmem_subtree in Hh. apply strip_prefix_spec in E. subst p. congruence.
 Qed.
@@ -130,19 +130,19 @@ Proof.
 Qed.
 
 (** edits of one node: set_formula, new/deleted cells, new/deleted reference, parameter formula *)
-Lemma live_ok_edit_node : forall d l p g f,
-  live_ok d l -> dmem p d = true ->
+Lemma live_ok_edit_node : forall gl d l p g f,
+  live_ok gl d l -> dmem p d = true ->
   (forall r, has_dynsub p r = true -> f r = true) ->
   ((forall m, sn_params (g m) = sn_params m) \/ (forall r, own p r = true -> f r = true)) ->
-  live_ok (dupdate p g d) (del_where f l).
+  live_ok gl (dupdate p g d) (del_where f l).
 Proof.
-  intros d l p g f Hok Hm Hdyn Hpar. apply (frame d _ l).
+  intros gl d l p g f Hok Hm Hdyn Hpar. apply (frame gl d _ l).
   - exact Hok.
   - intros r H. now apply in_del_where in H.
   - intros r r0 H H0 Hp. eapply del_where_parent; eauto.
   - intros r H. apply subtree_dupdate_out.
     assert (In r l) as Hin by (now apply in_del_where in H).
-    apply (survivor_not_under d l p r (Hok r Hin) Hm).
+    apply (survivor_not_under gl d l p r (Hok r Hin) Hm).
     apply del_where_self in H. destruct (has_dynsub p r) eqn:E; [|reflexivity].
     rewrite (Hdyn r E) in H. discriminate.
   - intros r key f0 H Hk Hf. destruct Hpar as [Hpres|Hown].
@@ -163,14 +163,14 @@ Lemma subtree_single_none : forall b q n, strip_prefix b q = None -> subtree b [
 Proof. intros b q n H. simpl. now rewrite H. Qed.
 
 (** a new space [q] *)
-Lemma live_ok_new_space : forall d l q nd f,
-  live_ok d l -> q <> [] ->
+Lemma live_ok_new_space : forall gl d l q nd f,
+  live_ok gl d l -> q <> [] ->
   existsb (fun e => is_prefix q (fst e)) d = false ->
   (parent_of q = [] \/ dmem (parent_of q) d = true) ->
   (forall r, has_dynsub (parent_of q) r = true -> f r = true) ->
-  live_ok (d ++ [(q, nd)]) (del_where f l).
+  live_ok gl (d ++ [(q, nd)]) (del_where f l).
 Proof.
-  intros d l q nd f Hok Hq Hfresh Hpar Hdyn. apply (frame d _ l).
+  intros gl d l q nd f Hok Hq Hfresh Hpar Hdyn. apply (frame gl d _ l).
   - exact Hok.
   - intros r H. now apply in_del_where in H.
   - intros r r0 H H0 Hp. eapply del_where_parent; eauto.
@@ -179,7 +179,7 @@ Proof.
     assert (strip_prefix (i_base r) q = None) as Hn.
     { destruct (strip_prefix (i_base r) q) as [r'|] eqn:E; [|reflexivity]. exfalso.
       apply strip_prefix_spec in E.
-      pose proof (base_mem _ _ _ (Hok r Hin)) as Hbm.
+      pose proof (base_mem _ _ _ _ (Hok r Hin)) as Hbm.
       destruct r' as [|x r'].
       - rewrite app_nil_r in E. subst q. apply dmem_exists_prefix in Hbm. congruence.
       - assert (parent_of q = i_base r ++ removelast (x :: r')) as Hpq.
@@ -197,11 +197,11 @@ Proof.
 Qed.
 
 (** a deleted space [q] (with everything below it) *)
-Lemma live_ok_del_space : forall d l q f,
-  live_ok d l -> (forall r, under q r = true -> f r = true) ->
-  live_ok (ddelete q d) (del_where f l).
+Lemma live_ok_del_space : forall gl d l q f,
+  live_ok gl d l -> (forall r, under q r = true -> f r = true) ->
+  live_ok gl (ddelete q d) (del_where f l).
 Proof.
-  intros d l q f Hok Hund. apply (frame d _ l).
+  intros gl d l q f Hok Hund. apply (frame gl d _ l).
   - exact Hok.
   - intros r H. now apply in_del_where in H.
   - intros r r0 H H0 Hp. eapply del_where_parent; eauto.
@@ -224,10 +224,10 @@ Proof.
   destruct (dmem _ _); simpl; auto.
 Qed.
 
-Lemma live_ok_change_ref : forall d l p x v,
-  live_ok d l -> live_ok (dupdate p (set_ref x v) d) (map (change_ref_inst p x v) l).
+Lemma live_ok_change_ref : forall gl d l p x v,
+  live_ok gl d l -> live_ok gl (dupdate p (set_ref x v) d) (map (change_ref_inst p x v) l).
 Proof.
-  intros d l p x v Hok r' Hr'. apply in_map_iff in Hr' as [r [<- Hr]].
+  intros gl d l p x v Hok r' Hr'. apply in_map_iff in Hr' as [r [<- Hr]].
   destruct (Hok r Hr) as [(its & cp & key & pbase & outer & f & Hk & Hp & Hf & Hb & Hi) [Hs Hc]].
   destruct (change_ref_inst_fields p x v r) as (Fk & Fb & Fa & Fx).
   split; [|split].
@@ -257,9 +257,9 @@ Proof.
   - intros H. destruct (IH H). auto.
 Qed.
 
-Lemma live_ok_mono : forall d l r0, live_ok d l -> forall r, In r l -> inst_ok d (r0 :: l) r.
+Lemma live_ok_mono : forall gl d l r0, live_ok gl d l -> forall r, In r l -> inst_ok gl d (r0 :: l) r.
 Proof.
-  intros d l r0 Hok r Hr.
+  intros gl d l r0 Hok r Hr.
   destruct (Hok r Hr) as [(its & cp & key & pbase & outer & f & Hk & Hp & Hrest) Hsc].
   split; [|exact Hsc]. exists its, cp, key, pbase, outer, f. split; [exact Hk|]. split; [|exact Hrest].
   destruct Hp as [Hp|(Hne & r1 & Hin1 & H1)]; [now left|right]. split; [exact Hne|]. exists r1. split; [now right|exact H1].
@@ -269,7 +269,7 @@ Lemma live_ok_new_inst : forall st par f defbase outer newkey pos kw key b a x,
   Inv st -> resolve_parent st par = PFound (Some f) defbase outer newkey ->
   bind (pf_sig f) pos kw = Some key ->
   item_ctx (st_defs st) f defbase outer key = Some (b, a, x) ->
-  live_ok (st_defs st)
+  live_ok (st_glob st) (st_defs st)
     ({| i_key := newkey key; i_uid := st_next st; i_base := b; i_snap := subtree b (st_defs st);
         i_args := a; i_xrefs := x; i_cache := [] |} :: st_live st).
 Proof.
@@ -312,15 +312,15 @@ Proof.
     + destruct (IH Hin) as (r0' & H1 & H2); [intros; apply Hsame; auto|]. exists r0'. split; [now right|exact H2].
 Qed.
 
-Lemma live_ok_with_cache : forall d l r c',
-  live_ok d l -> In r l -> cache_ok (ectx_of r) c' ->
+Lemma live_ok_with_cache : forall gl d l r c',
+  live_ok gl d l -> In r l -> cache_ok (ectx_of gl r) c' ->
   (forall r1, In r1 l -> i_key r1 = i_key r -> i_base r1 = i_base r /\ i_args r1 = i_args r) ->
-  live_ok d (replace_inst (with_cache r c') l).
+  live_ok gl d (replace_inst (with_cache r c') l).
 Proof.
-  intros d l r c' Hok Hr Hc Hsame r2 H2.
+  intros gl d l r c' Hok Hr Hc Hsame r2 H2.
   assert (exists r3, In r3 l /\ i_key r2 = i_key r3 /\ i_base r2 = i_base r3 /\ i_args r2 = i_args r3
                     /\ i_xrefs r2 = i_xrefs r3 /\ i_snap r2 = i_snap r3
-                    /\ cache_ok (ectx_of r2) (i_cache r2)) as (r3 & H3 & Fk & Fb & Fa & Fx & Fs & Fc).
+                    /\ cache_ok (ectx_of gl r2) (i_cache r2)) as (r3 & H3 & Fk & Fb & Fa & Fx & Fs & Fc).
   { apply in_replace_inst in H2 as [->|H2].
     - exists r. simpl. repeat split; auto.
     - exists r2. destruct (Hok r2 H2) as [_ [_ Hc2]]. repeat split; auto. }
@@ -334,11 +334,11 @@ Proof.
 Qed.
 
 (** instances with the same key were built the same way (the context is a function of key and definitions) *)
-Lemma same_key_same_ctx_aux : forall d l, live_ok d l -> forall n r1 r2, In r1 l -> In r2 l ->
+Lemma same_key_same_ctx_aux : forall gl d l, live_ok gl d l -> forall n r1 r2, In r1 l -> In r2 l ->
   List.length (snd (i_key r1)) = n -> i_key r1 = i_key r2 ->
   i_base r1 = i_base r2 /\ i_args r1 = i_args r2 /\ i_xrefs r1 = i_xrefs r2.
 Proof.
-  intros d l Hok n. induction n as [n IH] using lt_wf_ind. intros r1 r2 H1 H2 Hn Hk.
+  intros gl d l Hok n. induction n as [n IH] using lt_wf_ind. intros r1 r2 H1 H2 Hn Hk.
   destruct (Hok r1 H1) as [(its & cp & key & pbase & outer & f & Hk1 & Hp1 & Hf1 & _ & Hi1) _].
   destruct (Hok r2 H2) as [(its' & cp' & key' & pbase' & outer' & f' & Hk2 & Hp2 & Hf2 & _ & Hi2) _].
   rewrite <- Hk in Hk2. rewrite Hk1 in Hk2. apply app_inj_tail in Hk2 as [Eits Est]. inversion Est; subst its' cp' key'.
@@ -352,9 +352,15 @@ Proof.
       now rewrite A, B. }
   rewrite Hf1 in Hf2. inversion Hf2; subst f'. rewrite Hi1 in Hi2. inversion Hi2. auto.
 Qed.
-Lemma same_key_same_ctx : forall d l r1 r2, live_ok d l -> In r1 l -> In r2 l -> i_key r1 = i_key r2 ->
+Lemma same_key_same_ctx : forall gl d l r1 r2, live_ok gl d l -> In r1 l -> In r2 l -> i_key r1 = i_key r2 ->
   i_base r1 = i_base r2 /\ i_args r1 = i_args r2 /\ i_xrefs r1 = i_xrefs r2.
-Proof. intros d l r1 r2 Hok H1 H2 Hk. eapply same_key_same_ctx_aux; eauto. Qed.
+Proof. intros gl d l r1 r2 Hok H1 H2 Hk. eapply same_key_same_ctx_aux; eauto. Qed.
+
+Lemma parent_free_mem : forall d p x, parent_free d p x = true -> p = [] \/ dmem p d = true.
+Proof.
+  intros d p x H. destruct p as [|p0 p']; [now left|right]. unfold parent_free in H. unfold dmem.
+  destruct (dlookup (p0 :: p') d); [reflexivity|discriminate].
+Qed.
 
 (** ** every operation preserves the invariant *)
 Theorem step_preserves_inv : forall fuel st o, Inv st -> Inv (fst (step fuel st o)).
@@ -370,13 +376,13 @@ Proof.
     destruct h as [k cp]. destruct (find_inst k (st_live st)) as [r|] eqn:Ef; simpl; try exact HI.
     destruct (dmem cp (i_snap r)); simpl; try exact HI.
     apply find_inst_some in Ef as [Hin Hk].
-    destruct (ev_call fuel (ectx_of r) cp c args (i_cache r)) as [[v| |] c'] eqn:Ee; simpl; try exact HI.
+    destruct (ev_call fuel (ectx_of (st_glob st) r) cp c args (i_cache r)) as [[v| |] c'] eqn:Ee; simpl; try exact HI.
     + apply live_ok_with_cache; auto.
       * destruct (HI r Hin) as [_ [_ Hc]]. eapply ev_call_sound; eauto.
-      * intros r1 H1 Hk1. destruct (same_key_same_ctx _ _ r1 r HI H1 Hin Hk1) as (A & B & _). auto.
+      * intros r1 H1 Hk1. destruct (same_key_same_ctx _ _ _ r1 r HI H1 Hin Hk1) as (A & B & _). auto.
     + apply live_ok_with_cache; auto.
       * destruct (HI r Hin) as [_ [_ Hc]]. eapply ev_call_sound; eauto.
-      * intros r1 H1 Hk1. destruct (same_key_same_ctx _ _ r1 r HI H1 Hin Hk1) as (A & B & _). auto.
+      * intros r1 H1 Hk1. destruct (same_key_same_ctx _ _ _ r1 r HI H1 Hin Hk1) as (A & B & _). auto.
   - (* OTakeCells *)
     destruct h as [k cp]. destruct (find_inst k (st_live st)) as [r|]; simpl; try exact HI.
     destruct (dlookup cp (i_snap r)) as [n|]; simpl; try exact HI. destruct (amem c (sn_cells n)); exact HI.
@@ -386,42 +392,43 @@ Proof.
   - (* OSetFormula *)
     destruct (dlookup p (st_defs st)) as [n|] eqn:En; simpl; try exact HI.
     destruct (amem c (sn_cells n)); simpl; try exact HI.
-    apply live_ok_edit_node; auto; [unfold dmem; now rewrite En|].
+    apply live_ok_edit_node; [exact HI|unfold dmem; now rewrite En|intros r H; exact H|left; reflexivity].
   - (* ONewCells *)
     destruct (dlookup p (st_defs st)) as [n|] eqn:En; simpl; try exact HI.
     destruct (name_free n (st_defs st) p c); simpl; try exact HI.
-    apply live_ok_edit_node; auto; [unfold dmem; now rewrite En|intros r H; rewrite H; apply orb_true_r].
+    apply live_ok_edit_node; [exact HI|unfold dmem; now rewrite En|intros r H; rewrite H; apply orb_true_r|left; reflexivity].
   - (* ODelCells *)
     destruct (dlookup p (st_defs st)) as [n|] eqn:En; simpl; try exact HI.
     destruct (amem c (sn_cells n)); simpl; try exact HI.
-    apply live_ok_edit_node; auto; [unfold dmem; now rewrite En|intros r H; rewrite H; apply orb_true_r].
+    apply live_ok_edit_node; [exact HI|unfold dmem; now rewrite En|intros r H; rewrite H; apply orb_true_r|left; reflexivity].
   - (* OSetRef *)
     destruct (dlookup p (st_defs st)) as [n|] eqn:En; simpl; try exact HI.
     destruct (amem x (sn_cells n) || dmem (p ++ [x]) (st_defs st)); simpl; try exact HI.
     destruct (amem x (sn_refs n)); simpl.
     + apply live_ok_change_ref. apply live_ok_del. now apply live_ok_del.
-    + apply live_ok_edit_node; auto; [unfold dmem; now rewrite En|intros r H; rewrite H; apply orb_true_r].
+    + apply live_ok_edit_node; [exact HI|unfold dmem; now rewrite En|intros r H; rewrite H; apply orb_true_r|left; reflexivity].
   - (* ODelRef *)
     destruct (dlookup p (st_defs st)) as [n|] eqn:En; simpl; try exact HI.
     destruct (amem x (sn_refs n)); simpl; try exact HI.
-    apply live_ok_edit_node; auto; [unfold dmem; now rewrite En|intros r H; rewrite H; apply orb_true_r].
+    apply live_ok_edit_node; [exact HI|unfold dmem; now rewrite En|intros r H; rewrite H; apply orb_true_r|left; reflexivity].
   - (* ONewSpace *)
-    destruct q as [|q0 q']; simpl fst; try exact HI.
-    destruct (existsb (fun e => is_prefix (q0 :: q') (fst e)) (st_defs st)) eqn:Efresh; simpl fst; try exact HI.
-    destruct (parent_of (q0 :: q')) as [|p0 p'] eqn:Ep.
-    + simpl. apply live_ok_new_space; auto; [discriminate|rewrite Ep; intros r H; rewrite H; apply orb_true_r].
-    + destruct (dlookup (p0 :: p') (st_defs st)) as [n|] eqn:En; simpl fst; try exact HI.
-      destruct (negb (amem (last (q0 :: q') EmptyString) (sn_cells n))
-                && negb (amem (last (q0 :: q') EmptyString) (sn_refs n))); simpl fst; try exact HI.
-      simpl. apply live_ok_new_space; auto; [discriminate|right; rewrite Ep; unfold dmem; now rewrite En|].
-      rewrite Ep. intros r H; rewrite H; apply orb_true_r.
+    destruct q as [|q0 q']; try exact HI.
+    destruct (existsb (fun e => is_prefix (q0 :: q') (fst e)) (st_defs st)) eqn:Efresh; try exact HI.
+    destruct (parent_free (st_defs st) (parent_of (q0 :: q')) (last (q0 :: q') EmptyString)) eqn:Epf; try exact HI.
+    cbn [fst edit st_defs st_live st_glob]. apply live_ok_new_space; [exact HI|discriminate|exact Efresh| |].
+    + now apply parent_free_mem with (last (q0 :: q') EmptyString).
+    + intros r H; rewrite H; apply orb_true_r.
   - (* ODelSpace *)
     destruct (dmem q (st_defs st)); simpl; try exact HI.
     apply live_ok_del_space; auto. intros r H. now rewrite H.
   - (* OSetParams *)
     destruct (dlookup p (st_defs st)) as [n|] eqn:En; simpl; try exact HI.
-    apply live_ok_edit_node; auto; [unfold dmem; now rewrite En|intros r H; rewrite H; apply orb_true_r|].
+    apply live_ok_edit_node; [exact HI|unfold dmem; now rewrite En|intros r H; rewrite H; apply orb_true_r|].
     right. intros r H. now rewrite H.
+  - (* OSetGlobal *)
+    destruct (dmem [x] (st_defs st)); simpl; try exact HI. intros r H. destruct H.
+  - (* ODelGlobal *)
+    destruct (amem x (st_glob st)); simpl; try exact HI. intros r H. destruct H.
   - (* OClearItems *)
     destruct (dmem p (st_defs st)); simpl; try exact HI. now apply live_ok_del.
   - (* ODelItem *)
